@@ -48,7 +48,7 @@ def bases(tier):
             for i, d in enumerate(dims):
                 kk, ll = (SINGLE if i in ss else AXDEF)[d]
                 kinds.append(kk); labels.append(ll)
-            out.append(D.spec(dims, labels, kinds, vk="f" if k % 2 == 0 else "i", base=6, var=D.VARIANTS[k % len(D.VARIANTS)],
+            out.append(D.spec(dims, labels, kinds, vk=["f", "i", "f4", "i4"][k % 4], base=6, var=D.VARIANTS[k % len(D.VARIANTS)],
                               attrs={"units": "m"}))
             k += 1
     return out
